@@ -1,4 +1,4 @@
-(** C15 (thorough tier only) -- stm density, IFC-67 against IAPWS-97 on tiles, by interval arithmetic. *)
+(** C15 (thorough tier only) -- steam density, IFC-67 against IAPWS-97 on tiles, by interval arithmetic. *)
 Set Warnings "-ambiguous-paths,-notation-overridden".
 From Coq Require Import ZArith QArith Qreals Reals List Bool Lra.
 From Interval Require Import Tactic.
@@ -8,9 +8,21 @@ Import ListNotations.
 Close Scope Q_scope.
 Open Scope R_scope.
 
-Lemma S1 t p : 590 <= t <= 650 -> 5000000 <= p <= 10000000 -> rel_stm t p <= 1 / 100.
+Lemma S7 t p : 150 <= t <= 200 -> 100000 <= p <= 475000 -> rel_stm t p <= 1 / 100.
+Proof. intros Ht Hp. unfold rel_stm. expose_stm. interval with (i_taylor t, i_bisect p, i_depth 14, i_degree 5). Qed.
+
+Lemma S37 t p : 450 <= t <= 500 -> 1000000 <= p <= 10000000 -> rel_stm t p <= 1 / 100.
+Proof. intros Ht Hp. unfold rel_stm. expose_stm. interval with (i_taylor t, i_bisect p, i_depth 14, i_degree 5). Qed.
+
+Lemma S69 t p : 750 <= t <= 800 -> 1000000 <= p <= 10000000 -> rel_stm t p <= 1 / 100.
+Proof. intros Ht Hp. unfold rel_stm. expose_stm. interval with (i_taylor t, i_bisect p, i_depth 14, i_degree 5). Qed.
+
+Lemma S15 t p : 250 <= t <= 300 -> 50000 <= p <= 100000 -> rel_stm t p <= 1 / 100.
 Proof. intros Ht Hp. unfold rel_stm. expose_stm. interval with (i_bisect t, i_bisect p, i_depth 14). Qed.
 
-Lemma S5 t p : 700 <= t <= 750 -> 10000000 <= p <= 20000000 -> rel_stm t p <= 1 / 100.
+Lemma S35 t p : 450 <= t <= 500 -> 50000 <= p <= 100000 -> rel_stm t p <= 1 / 100.
+Proof. intros Ht Hp. unfold rel_stm. expose_stm. interval with (i_bisect t, i_bisect p, i_depth 14). Qed.
+
+Lemma S55 t p : 650 <= t <= 700 -> 50000 <= p <= 100000 -> rel_stm t p <= 1 / 100.
 Proof. intros Ht Hp. unfold rel_stm. expose_stm. interval with (i_bisect t, i_bisect p, i_depth 14). Qed.
 
